@@ -17,6 +17,7 @@ Pass packing (C01 / C16 / C11): the model of `pack_into_passes` against the real
 `slicefold s=<ifmShape>,<ofmShape>,<ofmTensorShape>,<readOffset>,<readShape> cons=<c>;…`  the model of `remove_SplitSliceRead`:
   consumer = `none,npu,memonly,mul,memcpy,transpose,binary,ifmIsSlice,ifm2IsSlice,ifmShapes,ofmShapes,ro0,ro1,rs0,rs1`
   answer `fold=1 <ro0,ro1,rs0,rs1,ifmShapes>;…` (the consumers afterwards), `fold=0` (a 1x1 average pool does the read) or `err:index`
+`bypassop <npu> <memoryOnly> <len(ifm.consumer_list)> <run_on_npu of the IFM producers, '/'-separated, '-' = none>`  → `untouched | memcpy | bypass`
 -/
 namespace VelaVerif.Handlers.PassPacking
 open VelaVerif VelaVerif.Handlers VelaVerif.PassPacking VelaVerif.PassPackingSpec
@@ -116,6 +117,11 @@ def handleSlice (toks : List String) : Option String := do
     | some cs' => some ("fold=1 " ++ ";".intercalate (cs'.map showConsumer))
 
 def handle : List String → Option String
+  | ["bypassop", npu, mo, n, prods] =>
+    match parseBool npu, parseBool mo, parseNat? n, (if prods == "-" then [] else splitNE prods "/").mapM parseBool with
+    | some a, some b, some c, some d =>
+      some (match SliceRead.bypassDecision a b c d with | .untouched => "untouched" | .memcpy => "memcpy" | .bypass => "bypass")
+    | _, _, _, _ => some "err:parse"
   | "slicefold" :: toks => some ((handleSlice toks).getD "err:parse")
   | "packspec" :: toks =>
     match parseGraph toks, (splitNE ((kv toks "passes").getD "") ";").mapM parseSPass with
